@@ -691,6 +691,12 @@ def read_use_stmt(line: str) -> tuple[Literal["use"], Use] | None:
             only_list.add(only_name)
             if len(only_split) == 2:
                 rename_map[only_name] = only_split[1].strip()
+    else:
+        # Renames of a module used as a whole: USE mod, local => remote
+        for rename in trailing_line.split(","):
+            rename_split = rename.split("=>")
+            if len(rename_split) == 2:
+                rename_map[rename_split[0].strip()] = rename_split[1].strip()
     return "use", Use(use_mod, only_list, rename_map)
 
 
